@@ -46,8 +46,9 @@ TEXT = {
             "under that mode; temporaries are named before use; clones of a computed-name "
             "derivation agree; the *_pos payload and the enumerate() wrapper follow one predicate on "
             "every path; the merger's input binder exists whenever its reader does; collections keyed "
-            "by rank tuples are probed with tuples. Does not decide statement order per specification "
-            "or data-built names.",
+            "by rank tuples are probed with tuples; a shape= argument names a rank's root only for ranks "
+            "that do not stem from a flattening; per-element rewrites accumulate. Does not decide "
+            "statement order per specification or data-built names.",
             "abstract interpretation of name templates + interprocedural guard sets"),
     "C07": ("Only the output tensor can be the target of populate (<<), getPayloadRef/"
             "iterRangeShapeRef and the in-place update: provenance of every write site; the footer "
@@ -65,7 +66,8 @@ TEXT = {
             "dependence edges present per builder, no dangling emitting node, hoisting guarded by "
             "non-descendance, loop and metrics chains open in loop order and close in reverse, "
             "per-element edge-building loops cover their whole collection and no edge is built from a "
-            "finished loop's left-over.",
+            "finished loop's left-over; memo tables are keyed by the level they answer for; every input "
+            "tensor gets its root fiber; a metrics header waits for the fibers it traces (open finding F12).",
             "AST structural rules + kind-level may-edge graph of flow_graph.py"),
     "C12": ("Trace labels and file-name schemas agree between registration and consumption by "
             "construction of the emitters; begin/end pairing; intersector create/feed/query and "
@@ -89,7 +91,8 @@ TEXT = {
             "interprocedural alias-depth (freshness) dataflow + global-state lints with fixtures"),
     "C16": ("Graphics emitters are observation-only and identically guarded; enumerate wrapper and "
             "_pos payload guarded by the same predicate; one activity per update; one coordinate "
-            "per rank from the same tensor list. Stamp uniqueness / tensor equality not decided.",
+            "per rank from the same tensor list; relative coordinates only for ranks that do not stem "
+            "from a flattening. Stamp uniqueness / tensor equality not decided.",
             "guard-set equality + name-site disjointness over graphics/canvas/equation"),
     "C17": ("Each of the five grammars is LALR(1) conflict-free (unique tree per token string); "
             "every tree label a consumer tests is producible by its grammar and every directive "
